@@ -191,6 +191,23 @@ class ProgramRunner(object):
         elif op == 'query':
             for cname in self.info.class_names[:1]:
                 s.query(self.env.classes[cname]).all()
+        elif op == 'expunge':
+            # the object leaves the session: changes not flushed yet are lost, a pending object is gone; the
+            # application goes on with a freshly loaded instance (if the row exists)
+            _, cname, pk = step
+            obj = self.find(cname, pk)
+            if obj is None:
+                return 'skip'
+            k = self.key_of(obj)
+            was_pending = sa.inspect(obj).pending
+            s.expunge(obj)
+            del self.reg[k]
+            if not was_pending:
+                vals = self.pk_value(type(obj).__name__, list(k[1]))
+                fresh = s.get(type(obj), tuple(vals) if len(vals) > 1 else vals[0])
+                if fresh is not None:
+                    self.reg[k] = fresh
+                    self.keepalive.append(fresh)
         elif op == 'expire':
             s.expire_all()
         elif op == 'manual_tx':
